@@ -568,7 +568,7 @@ func scnPathSel(rep *Report, rng *Rng, tier string, outdir string) {
 	for _, p := range []string{"C03", "C05", "C06", "C20"} {
 		rep.P(p).Rule = rule
 	}
-	names := []string{"a", "b.txt", "with space", "ünï", "a%20b", "50%25", "x%41", ".", "..", "sub", "deep", "notes-50.txt", "old-notes-50.txt", "txt", "0A", "FFsub"}
+	names := []string{"a", "b.txt", "with space", "ünï", "a%20b", "50%25", "x%41", ".", "..", "sub", "deep", "notes-50.txt", "old-notes-50.txt", "txt", "0A", "FFsub", "0", "07", "2024", "-1"}
 	nextID := 0
 	var gen func(depth int, name string) *PNode
 	gen = func(depth int, name string) *PNode {
